@@ -85,7 +85,9 @@ MUTANTS = [
     ("c13-separators", ["C13"], RP, "                            if total_kvps > 0\n", "                            if total_kvps > 1\n", "separator threshold"),
     # ---- C14
     ("c14-continue", ["C14"], CP,
-     "        match line_comment_extractor.captures(line)\n        {\n            None => break,", "        match line_comment_extractor.captures(line)\n        {\n            None => continue,", "code lines are skipped when looking for a directive"),
+     "                }\n            }\n        }\n\n        break;\n    }\n\n    false\n}", "                }\n            }\n        }\n    }\n\n    false\n}", "code lines are skipped when looking for a directive"),
+    ("c14-leftmost", ["C14"], CP, "for capture in line_comment_extractor.captures_iter(line)", "for capture in line_comment_extractor.captures(line)", "only the left-most comment on the line is examined"),
+    ("c14-greedy", ["C14"], "src/parser/rust_parser.rs", 'Regex::new(r"\\/\\/(.+)|\\/\\*(.+?)\\*\\/")', 'Regex::new(r"\\/\\/(.+)|\\/\\*(.+)\\*\\/")', "greedy block-comment group"),
     ("c14-no-lower", ["C14"], CP, "if comment.as_str().to_lowercase().trim() == directive_name", "if comment.as_str().trim() == directive_name", "case-sensitive directive"),
     ("c14-text", ["C14"], CP, 'const NO_KVP_DIRECTIVE_TEXT: &str = "breadlog:no-kvp";', 'const NO_KVP_DIRECTIVE_TEXT: &str = "breadlog:nokvp";', "directive text"),
     # ---- C15
